@@ -82,6 +82,36 @@ def h_char_str(n: int, b0: int, b1: int, b2: int, b3: int, b4: int, b5: int, b6:
     return 1
 
 
+API_CLASSES = " 0AZ#."          # blank (a valid AKAI character, code 10), digit, first / last letter, punctuation
+
+
+def h_char_api(n: int, k0: int, k1: int, k2: int, k3: int) -> int:
+    """
+    pre: 0 <= n <= 4 and 0 <= k0 <= 5 and 0 <= k1 <= 5 and 0 <= k2 <= 5 and 0 <= k3 <= 5
+    post: _ == 1
+    """
+    CNT[0] += 1
+    n = conc(n, 0, 4)
+    ks = [conc(k, 0, 5) for k in (k0, k1, k2, k3)[:n]]
+    from vf.util import untraced
+    with untraced():
+        # the PUBLIC converters on whole names (str and bytes inputs), incl. leading / trailing / only blanks
+        from smpl_extract.akai.akai_string import AkaiPaddedString
+        name = "".join(API_CLASSES[k] for k in ks)
+        codes = bytes(AKAI_ASCII.index(ch) for ch in name)
+        if char_ascii_to_akai(name) != codes or char_ascii_to_akai(name.encode("ascii")) != codes:
+            return 0
+        if char_akai_to_ascii(codes) != name or char_akai_to_ascii(list(codes)) != name:
+            return 0
+        field = AkaiPaddedString(12)
+        raw = field.build(name)
+        if raw != codes + bytes([10]) * (12 - n):
+            return 0                                   # the 12-byte field: the name's codes, padded with the blank code
+        if field.parse(raw) != name.rstrip(" "):
+            return 0                                   # trailing blanks are the padding; everything else comes back
+    return 1
+
+
 def h_note_byte(b: int, which: int) -> int:
     """
     pre: 21 <= b <= 255 and 0 <= which <= 1
@@ -194,6 +224,7 @@ def obligations(tier, seed):
         return dict(name=name, module="vf.props.c18", func=func, extra_pre=pre, timeout=T, runs=RUNS, sym=sym, bound=bound, stubs=[], **kw)
     obs = [ob("C18.char/akai->ascii->akai", "h_char_akai", [], "AKAI byte", "0..255 (all)"),
            ob("C18.char/ascii->akai->ascii", "h_char_ascii", [], "ASCII byte", "0..255 (all)"),
+           ob("C18.char/api", "h_char_api", [], "length 0..4 and character class of every position", "names over 6 character classes (blank, digit, A, Z, #, .) through the public converters and the 12-byte field"),
            ob("C18.note/akai", "h_note_byte", ["which == 0"], "note byte", "21..255"),
            ob("C18.note/midi", "h_note_byte", ["which == 1"], "note byte", "21..255"),
            ob("C18.note/akai/below-A0", "h_note_byte_low", ["which == 0"], "note byte", "0..20"),
